@@ -128,6 +128,9 @@ pub struct Spec {
     /// order in which the bodies are laid out in the file (final section numbers, 1-based);
     /// sections not listed follow in index order. Header indexes are unaffected.
     pub body_order: Vec<usize>,
+    /// sh_addr := sh_offset for sections whose addr is 0, p_vaddr/p_paddr := p_offset for segments
+    /// whose vaddr is 0 (an identity "memory image", which keeps third-party readers quiet)
+    pub identity_addrs: bool,
 }
 
 impl Spec {
@@ -146,6 +149,7 @@ impl Spec {
             auto_shstrtab: true,
             no_shdrs: false,
             body_order: Vec::new(),
+            identity_addrs: true,
         }
     }
 }
@@ -356,11 +360,12 @@ pub fn build(spec: &Spec) -> Built {
     // shdrs
     let mut shdrs: Vec<Vec<u64>> = Vec::new();
     for (i, s) in secs.iter().enumerate() {
+        let addr = if spec.identity_addrs && s.addr == 0 && i != 0 && s.sh_type != SHT_NOBITS { ranges[i].0 } else { s.addr };
         let mut v = shdr_values(
             name_offs[i],
             s.sh_type as u64,
             s.flags,
-            s.addr,
+            addr,
             ranges[i].0,
             ranges[i].1,
             s.link as u64,
@@ -406,11 +411,12 @@ pub fn build(spec: &Spec) -> Built {
             SegTarget::Section(si) => ranges[*si],
             SegTarget::Range { offset, filesz } => (*offset, *filesz),
         };
+        let (va, pa) = if spec.identity_addrs && g.vaddr == 0 { (poff, poff) } else { (g.vaddr, g.paddr) };
         let v: Vec<u64> = vec![
             g.p_type as u64,
             poff,
-            g.vaddr,
-            g.paddr,
+            va,
+            pa,
             pfilesz,
             pfilesz.wrapping_add(g.memsz_extra),
             g.flags as u64,
